@@ -3,7 +3,7 @@
    [labs s : key path -> option lock]; a lock is (holder, waiting clients in order with
    their pending acquire requests), so "at most one holder per key" holds by construction and
    the theorems say how each request changes that function and which requests it confirms. *)
-From WB Require Import Base.Str Model.Key Model.Store Model.Core Proofs.StoreFacts Proofs.LockFacts.
+From WB Require Import Base.Str Base.Json Model.Key Model.Store Model.Core Proofs.StoreFacts Proofs.LockFacts Proofs.LockHistory.
 
 (* lock succeeds only on a free key or for the current holder; a refused lock changes nothing *)
 Theorem C06_lock_ok_iff_free_or_mine :
@@ -76,6 +76,98 @@ Theorem C06_release :
     end.
 Proof. exact unlock_spec. Qed.
 Print Assumptions C06_release.
+
+(* ---- whole histories (Proofs/LockHistory.v) ----
+   [cline s q] is the line of key q in state s: the holder first, then the waiting clients in the order
+   in which they first asked; [cpend s q c r] says that acquire request r of client c on key q is
+   waiting for its confirmation.  [final init ops] ranges over every reachable state: ops is any list of
+   requests of any kind from any clients, session starts and session ends included. *)
+
+(* the lines of all keys evolve like the abstract machine [astep], and like nothing else: a lock on a free
+   key starts its line, an acquire appends its client unless it stands in the line already, a release or a
+   session end removes exactly that client (so the next in line holds the key, and a release by somebody
+   else leaves the holder in place), no other request of any kind changes any line *)
+Theorem C06_lines_follow_the_queue :
+  forall ops q, cline (final init ops) q = fold_left astep ops (fun _ => []) q.
+Proof. exact line_refines. Qed.
+Print Assumptions C06_lines_follow_the_queue.
+
+(* nobody stands in a line twice: the holder does not wait for itself, one holder per key *)
+Theorem C06_no_client_twice_in_line : forall ops q, NoDup (cline (final init ops) q).
+Proof. exact reach_nodup. Qed.
+Print Assumptions C06_no_client_twice_in_line.
+
+(* every id handed out by an acquire is confirmed or cancelled at most once over the whole history, never
+   both; a resolved id is pending nowhere; every other id handed out so far is still pending *)
+Theorem C06_confirm_once :
+  forall ops, nocrash (trace init ops) ->
+    let s := final init ops in let R := resolved (trace init ops) in
+    NoDup R /\
+    (forall r, In r R -> r < next_req s /\ forall q c, ~ cpend s q c r) /\
+    (forall r, r < next_req s -> In r R \/ exists q c, cpend s q c r).
+Proof. exact confirm_once. Qed.
+Print Assumptions C06_confirm_once.
+
+(* a confirmation goes to the client that holds the key after the step (a waiting request's client, or the
+   requester of this very step) ... *)
+Theorem C06_confirmed_is_holder :
+  forall ops o, is_crash (snd (step (final init ops) o)) = false ->
+    forall r, In r (o_granted (snd (step (final init ops) o))) ->
+      exists q c, (cpend (final init ops) q c r \/ new_req (final init ops) o q c r) /\
+                  hd_error (cline (fst (step (final init ops) o)) q) = Some c.
+Proof. exact granted_is_holder. Qed.
+Print Assumptions C06_confirmed_is_holder.
+
+(* ... and it comes exactly in the step in which the waiting client becomes the holder *)
+Theorem C06_holder_is_confirmed :
+  forall ops o, is_crash (snd (step (final init ops) o)) = false ->
+    forall q c r, cpend (final init ops) q c r ->
+      hd_error (cline (fst (step (final init ops) o)) q) = Some c ->
+      In r (o_granted (snd (step (final init ops) o))).
+Proof. exact holder_is_granted. Qed.
+Print Assumptions C06_holder_is_confirmed.
+
+(* a request is cancelled only by its own client's release or session end, which takes the client out of
+   the line; and whenever a waiting client leaves the line its pending requests are cancelled *)
+Theorem C06_cancelled_has_left :
+  forall ops o, is_crash (snd (step (final init ops) o)) = false ->
+    forall r, In r (o_cancelled (snd (step (final init ops) o))) ->
+      exists q c, actor o = Some c /\ cpend (final init ops) q c r /\
+                  ~ In c (cline (fst (step (final init ops) o)) q).
+Proof. exact cancelled_has_left. Qed.
+Print Assumptions C06_cancelled_has_left.
+
+Theorem C06_left_is_cancelled :
+  forall ops o, is_crash (snd (step (final init ops) o)) = false ->
+    forall q c r, cpend (final init ops) q c r ->
+      ~ In c (cline (fst (step (final init ops) o)) q) ->
+      In r (o_cancelled (snd (step (final init ops) o))).
+Proof. exact left_is_cancelled. Qed.
+Print Assumptions C06_left_is_cancelled.
+
+(* a request that a step neither confirms nor cancels stays pending for the same client on the same key *)
+Theorem C06_pending_stays :
+  forall ops o, is_crash (snd (step (final init ops) o)) = false ->
+    forall q c r, cpend (final init ops) q c r ->
+      ~ In r (o_granted (snd (step (final init ops) o)) ++ o_cancelled (snd (step (final init ops) o))) ->
+      cpend (fst (step (final init ops) o)) q c r.
+Proof. exact pending_stays. Qed.
+Print Assumptions C06_pending_stays.
+
+(* the debug assertion in Store::unlock (lock tree clean after the removal) holds in every reachable state *)
+Theorem C06_release_never_crashes :
+  forall ops c k, o_res (snd (do_release (final init ops) c k)) <> RCrash.
+Proof. exact release_never_crashes. Qed.
+Print Assumptions C06_release_never_crashes.
+
+(* non-vacuity of the history theorems: three clients, a session end in the middle of the line *)
+Example C06_history_nonvacuous :
+  let ops := [OLock 1 [107]; OAcquire 2 [107]; OAcquire 3 [107]; OAcquire 4 [107]; OAcquire 3 [107];
+              ODisconnected 2; ORelease 1 [107]; OSet 9 [120] JNull false; ORelease 3 [107]] in
+  cline (final init ops) [[107]] = [4] /\ fold_left astep ops (fun _ => []) [[107]] = [4] /\
+  resolved (trace init ops) = [0; 1; 3; 2] /\ next_req (final init ops) = 4 /\
+  forallb (fun o => negb (is_crash o)) (trace init ops) = true.
+Proof. vm_compute. repeat split; reflexivity. Qed.
 
 (* non-vacuity: lock, two waiters, hand-over in order *)
 Example C06_nonvacuous :
